@@ -72,7 +72,8 @@ def run(tier, seed):
     nerr = sum(1 for t in traces for c in t["calls"] if c["outcome"] != "ret")
     if nerr:
         ctx.skip("calls that raised (judged by C15/C17, not by C01)", nerr)
-    ctx.sample({"direction": "B", "scenario": kept[0].key(), "call_2": {k: traces[0]["calls"][1][k] for k in ("pre", "post", "order")} if len(traces[0]["calls"]) > 1 else None})
+    if traces:
+      ctx.sample({"direction": "B", "scenario": kept[0].key(), "call_2": {k: traces[0]["calls"][1][k] for k in ("pre", "post", "order")} if len(traces[0]["calls"]) > 1 else None})
     float_identity(ctx, scs[: (30 if quick else 300)])
     E.self_test(ctx, [s for s in scs if s.names != "mixed"][:3])
     ctx.assume("exact identity checked in GF(46337) on Fraction runs; float identity with tolerance "
